@@ -2,22 +2,16 @@ package main
 
 // C15: GoLite targets (docs/GOLITE_NOTES.md, docs/audit/C15.md section "GoLite").
 //
-// Translated today: checkExpiry (the freshness decision of FileCache.Get).
-// The rows below it are the rest of verifier/crl/crl.go with everything they
-// call; they are kept although the translator refuses them, because the reason
-// printed for each (`golite: unsupported ..`) names the construct that is
-// missing, and they turn `ok` by themselves once it exists:
+// All of verifier/crl/crl.go that carries a decision: checkExpiry, fileName,
+// Set, Get; every dependency is an oracle (json.Marshal / Unmarshal are
+// instantiated per argument type; Unmarshal writes through v).
 //
-//	fileName  crl.go:155 `sha256.Sum256([]byte(url))`: conversion string -> []byte, result type [32]byte;
-//	          crl.go:156 `hash[:]` (slice of an array)
-//	Set       crl.go:142 `json.Marshal(content)`: oracle with a parameter of type `any`;
-//	          crl.go:146 `filepath.Join(a, b)`: variadic oracle; + fileName
-//	Get       crl.go:85 filepath.Join; crl.go:96 `json.Unmarshal(contentBytes, &content)`: `any` parameter
-//	          that is an out-pointer to a local; crl.go:104 `content.DeltaCRL != nil` on a []byte whose
-//	          nil / empty distinction matters (NilIsEmpty would be unsound: `"deltaCRL":""` decodes to an
-//	          empty non-nil slice, which Get hands to ParseRevocationList -> error, while nil -> no delta);
-//	          + fileName. Everything else of Get and Set translates (tried on a scratch copy in which these
-//	          calls were wrapped in monomorphic helper functions).
+// Get has NilIsEmpty: crl.go:104 `content.DeltaCRL != nil` is read as
+// `len(content.DeltaCRL) != 0` (a slice is a list, nil = empty). The real code
+// tells them apart ("deltaCRL":"" decodes to an empty non-nil slice, which Get
+// hands to ParseRevocationList -> error); the theorem C15_gen_Get_equiv says
+// nothing for that decoder answer (hypothesis unmarshal_agrees), the harness
+// case "delta:empty-string" covers it.
 func init() {
 	const crl = ".../verifier/crl"
 	Register("C15", []Target{
